@@ -21,6 +21,30 @@ CLAIMED = {
          "Generated histories against model and against the naive configuration after every command/iteration.",
          "Trusts refegg.rs container semantics (structural re-canonicalisation); Map/Pair not generated yet (Map key collisions are outside the claim).",
          "DESIGN.md 4/C14"),
+ "C04": ("property-based testing with injected faults: generated histories incl. commands failing at run time (rule panic beside union rules, :no-merge conflicts, failing primitives/lookups); validity predicate over the raw id-carrying dump after EVERY command (key uniqueness, canonical ids incl. inside containers, no congruent rows, container hash-consing, serialize() = read API, visibility probes on clones)",
+         "Generated histories x fault positions with an invariant oracle evaluated after every single command, failed or not.",
+         "Trusts the public read API (functions_iter, constructor_enodes, function_entries, value_to_class_id, container inner_values) as the observation of the stored rows.",
+         "DESIGN.md 4/C04"),
+ "C05": ("property-based testing against a fold oracle: generated write multisets / permutations / batchings (per command, one rule iteration via a relation, EGraph::update batches) / key-collapsing unions; expected = fold of the ACI merge per final key class; every case also in child processes with threads x EGGLOG_PARALLEL_*_CUTOFF=0; :no-merge conflict stage",
+         "Generated cases with an exact algebraic oracle, executed under serial and forced-parallel insertion paths.",
+         "Merge expressions are ACI by construction; child processes are needed because the parallel cut-offs are read once per process.",
+         "DESIGN.md 4/C05"),
+ "C10": ("metamorphic + reference-execution property testing: at every schedule command the schedule is interpreted by its textbook definition with step_rules/check on a clone (change decided by dump comparison), compared with the native run and with law-equivalent variants on further clones; saturate idempotence; updated-flag consistency; lockstep with the reference model (combined rulesets)",
+         "Generated programs x schedule expressions with a definitional oracle and algebraic-law variants.",
+         "Programs with delete are outside (removals do not count as updates by design); saturate only over closed rules so every schedule terminates.",
+         "DESIGN.md 4/C10"),
+ "C16": ("model-based (stateful) property testing: generated operation sequences over Database / SortedWritesTable / DisplacedTable (stage insert/remove, merge_all, clear, clone, rebuild, compaction) against a BTreeMap model, every read compared after every op (get_row, scans, refine with every constraint kind, fast_subset, rule-set queries as index-backed reads)",
+         "Operation sequences against an explicit map model with comparison at every step.",
+         "Sort-column values are generated monotonically and one timestamp per merge batch, as every real caller does; estimate_size only sanity-checked.",
+         "DESIGN.md 4/C16"),
+ "C19": ("seeded scenario generation + stress in child processes: spawn trees (nested scopes >64 deep, panics, blocking waits) with per-node execution counters, ReadOptimizedLock torn-read/overlap canaries, ConcurrentVec / ParallelVecWriter / NotificationList / ResettableOnceLock presence-and-integrity oracles, watchdog-based deadlock detection",
+         "Generated scenarios with exact post-conditions; interleavings are sampled (repetitions), not enumerated.",
+         "Cannot own the OS scheduler: stress + perturbation, no exhaustive interleaving coverage; deadlock = quiescent unfinished child.",
+         "DESIGN.md 4/C19"),
+ "C20": ("differential property testing across processes: each generated feature-rich program (and each .egg corpus file) is run twice in-process and in two more processes with different environment / cwd / address-space layout; outputs, error strings, run reports (durations zeroed) and final dump compared byte for byte",
+         "Generated programs with a repeat-execution differential oracle.",
+         "Timings and print-stats text excluded as the property states.",
+         "DESIGN.md 4/C20"),
 }
 
 PENDING_REASON = "check not built yet in this round (work in progress; see DESIGN.md section 8 for the build order)"
